@@ -21,12 +21,13 @@ Model driver for the `mutex` line protocol (C15).  One operation per input line,
   ivs <h>:<enter>:<exit>:<rows> …         -> accept | reject <i> <j> <name>      (interval monitor)
   tasks <tasks> | <controller>            -> fin          (tasks_deadlock_free/tasks_all_finish: the tasks model
         `MutexTasks.tsys`, both lock variants, run to the end by a lowest-first and a highest-first scheduler)
-  tivs <waits>;… | <h>:<enter>:<exit>:<rows> …  -> accept | reject <i> <j> <name> | early <task> <prerequisite>
+  tivs <waits>;… | <h>:<enter>:<exit>:<rows> … (or `-`: none)  -> accept | reject <i> <j> <name> | early <task> <prerequisite>
         interval monitor + order monitor (`MutexTasks.orderMonitor`) on the bodies recorded from the real runner
   tswap <tasks>                           -> stuck <schedule> | nostuck | unknown
         search of the swapped model (`MutexTasks.tsysSwapped`, lock map first, then wait) for a stuck state
 
-<tasks> = `;`-separated tasks `<waits>/<map>`, <waits> = `-` or `,`-separated indices of earlier tasks.
+<tasks> = `;`-separated tasks `<waits>/<map>[/n]`, <waits> = `-` or `,`-separated indices of earlier tasks
+(`/n`: on the implementation the body submits a nested task that runs the probe; no difference for the model).
 
 <holders> = `;`-separated lock maps, a map = `,`-separated rows `<name>:<r|w>` or `-` (empty map).
 Names are ranked byte-wise (Go string order) to obtain the model's `Name`s.
@@ -251,11 +252,13 @@ def showLocks (r : Option (List (Bytes × Bool))) : String :=
 /-! ### tasks layer -/
 
 def parseTask (t : String) : Option (List Nat × List (String × Bool)) :=
-  match t.splitOn "/" with
-  | [w, m] => do
+  let go (w m : String) : Option (List Nat × List (String × Bool)) := do
     let ws ← if w = "-" || w = "" then some [] else (w.splitOn ",").mapM String.toNat?
     let mp ← parseMap "," ":" m
     pure (ws, mp)
+  match t.splitOn "/" with
+  | [w, m] => go w m
+  | [w, m, "n"] => go w m     -- `/n`: the body runs through a nested task; the same holder for the model
   | _ => none
 
 def parseTasks (t : String) : Option (List MutexTasks.Task) := do
@@ -347,7 +350,7 @@ def stepLine (line : String) : String :=
       | some k => withHolders hs fun maps => runOverlap maps k
       | none => "bad-op"
     | ["tasks", ts] => match parseTasks ts with | some tasks => runTasksFin tasks | none => "bad-op"
-    | "tivs" :: ws => runTaskMonitor (" ".intercalate ws) ((arg.splitOn " ").filter (· ≠ ""))
+    | "tivs" :: ws => runTaskMonitor (" ".intercalate ws) ((arg.splitOn " ").filter fun t => t ≠ "" && t ≠ "-")
     | _ => "bad-op"
   | _ => "bad-op"
 
